@@ -29,6 +29,7 @@ theorem tie_h_rest_api_frontend_dag_handler_go : Extracted.Api.h_rest_api_fronte
 theorem tie_h_rest_api_frontend_dag_convert_go : Extracted.Api.h_rest_api_frontend_dag_convert_go = Canon.Api.h_rest_api_frontend_dag_convert_go := by decide +kernel
 theorem tie_h_rest_api_client_client_go : Extracted.Api.h_rest_api_client_client_go = Canon.Api.h_rest_api_client_client_go := by decide +kernel
 theorem tie_h_rest_api_cmd_start_go : Extracted.Api.h_rest_api_cmd_start_go = Canon.Api.h_rest_api_cmd_start_go := by decide +kernel
+theorem tie_h_rest_api_persistence_model_status_go : Extracted.Api.h_rest_api_persistence_model_status_go = Canon.Api.h_rest_api_persistence_model_status_go := by decide +kernel
 
 #print axioms tie_h_api_handler_postAction
 #print axioms tie_h_api_handler_processUpdateStatus
@@ -56,5 +57,6 @@ theorem tie_h_rest_api_cmd_start_go : Extracted.Api.h_rest_api_cmd_start_go = Ca
 #print axioms tie_h_rest_api_frontend_dag_convert_go
 #print axioms tie_h_rest_api_client_client_go
 #print axioms tie_h_rest_api_cmd_start_go
+#print axioms tie_h_rest_api_persistence_model_status_go
 
 end BdModel.Tie.Api
